@@ -25,7 +25,7 @@ ASSUMPTIONS = ['reference tables: dtcwt 0.14 package data', 'q-shift tables are 
                'level-1 PR residual and symmetry tolerance 1e-12 (antonini is symmetric to 4e-15)']
 STRATA = {'quick': 'all 14 shipped tables x all identities (exhaustive)', 'thorough': 'all 14 shipped tables x all identities (exhaustive)'}
 LABEL_FLOORS = {}
-MODS = ['dtcwt_fwd', 'dtcwt_inv', 'scat1', 'scat2', 'scat2_bp', 'scat1_bp']
+MODS = ['dtcwt_fwd', 'dtcwt_inv', 'scat1', 'scat2', 'scat2_bp', 'scat1_bp', 'legacy_fwd2', 'legacy_inv2', 'legacy_fwd2']
 
 
 def plan(tier):
@@ -177,6 +177,12 @@ def _make(kind, b, q):
         return ScatLayer(biort='near_sym_b_bp'), ['near_sym_b_bp']
     if kind == 'scat2':
         return ScatLayerj2(biort=b, qshift=q), [b, q]
+    if kind in ('legacy_fwd2', 'legacy_inv2'):
+        # the older DTCWTForward2 / DTCWTInverse2 classes load the 8-array level-1 tables through level1(name)
+        from pytorch_wavelets.dtcwt import lowlevel2 as l2
+        name = EXTRA[len(b) % 2]
+        cls = l2.DTCWTForward2 if kind == 'legacy_fwd2' else l2.DTCWTInverse2
+        return (cls(biort=name, qshift=q, J=2) if kind == 'legacy_fwd2' else cls(biort=name, qshift=q)), [name, q]
     return ScatLayerj2(biort='near_sym_b_bp', qshift='qshift_b_bp'), ['near_sym_b_bp', 'qshift_b_bp']
 
 
@@ -211,6 +217,8 @@ def _history(case, r):
                 loaded.setdefault(n, {k: np.array(v, copy=True) for k, v in _load(n).items()})
         elif kind in ('call', 'backward') and mods:
             m = mods[op[1] % len(mods)]
+            if type(m).__name__ == 'DTCWTInverse2':
+                continue            # constructed only (its call signature needs a legacy pyramid)
             if isinstance(m, DTCWTInverse):
                 x = (torch.randn(1, 1, 4, 4, generator=torch.Generator().manual_seed(op[2])),
                      [torch.randn(1, 1, 6, 4, 4, 2, generator=torch.Generator().manual_seed(op[2])),
@@ -218,7 +226,7 @@ def _history(case, r):
                 x[0].requires_grad_(kind == 'backward')
             else:
                 x = torch.randn(1, 3, 8 + 8 * (op[2] % 2), 16, generator=torch.Generator().manual_seed(op[2]))
-                x.requires_grad_(kind == 'backward')
+                x.requires_grad_(kind == 'backward' and type(m).__name__ != 'DTCWTForward2')
             ok, y = lib(m, x)
             if not ok:
                 return r.fail(y.bucket, 'module call raised in a history: %s' % y)
@@ -233,9 +241,10 @@ def _history(case, r):
                         for a in o:
                             flat(a)
                 flat(y)
-                ok, e = lib(lambda: sum(outs).backward())
-                if not ok:
-                    return r.fail(e.bucket, 'backward raised in a history: %s' % e)
+                if outs:
+                    ok, e = lib(lambda: sum(outs).backward())
+                    if not ok:
+                        return r.fail(e.bucket, 'backward raised in a history: %s' % e)
             for n in calls_since:
                 calls_since[n] += 1
             r.label('module_call')
